@@ -31,6 +31,7 @@ struct Index {
     types: HashMap<String, Item>,
     impls: HashMap<String, Vec<ItemImpl>>,
     copy_types: HashSet<String>,
+    eq_types: HashSet<String>,
 }
 
 fn type_last_ident(t: &Type) -> Option<String> {
@@ -71,6 +72,11 @@ fn index_items(prefix: &str, items: &[Item], idx: &mut Index) {
                 if let Some((_, tr, _)) = &im.trait_ {
                     // `impl Copy for X` (what #[derive(Copy)] expands to): remembered so that the extracted
                     // struct keeps its Copy-ness
+                    if tr.segments.last().map(|s| s.ident == "StructuralPartialEq").unwrap_or(false) {
+                        if let Some(name) = type_last_ident(&im.self_ty) {
+                            idx.eq_types.insert(format!("{}::{}", prefix, name));
+                        }
+                    }
                     if tr.segments.last().map(|s| s.ident == "Copy").unwrap_or(false) {
                         if let Some(name) = type_last_ident(&im.self_ty) {
                             idx.copy_types.insert(format!("{}::{}", prefix, name));
@@ -782,7 +788,8 @@ impl<'a> Flatten<'a> {
             // keep an enum-variant / assoc path of two trailing segments when the type is known
             let n = p.segments.len();
             let prev = p.segments[n - 2].ident.to_string();
-            let keep_two = !through_reexport && self.known.contains(&prev) && prev.chars().next().map(|c| c.is_uppercase()).unwrap_or(false);
+            let prev_is_type = prev.chars().next().map(|c| c.is_uppercase()).unwrap_or(false);
+            let keep_two = (!through_reexport && self.known.contains(&prev) && prev_is_type) || (through_reexport && prev_is_type && prev != "__");
             let mut np = Path { leading_colon: None, segments: Default::default() };
             if keep_two {
                 np.segments.push(p.segments[n - 2].clone());
@@ -857,8 +864,37 @@ struct Stats {
     loops: usize,
 }
 
+struct UseAliases {
+    aliases: Vec<(String, String)>,
+}
+impl UseAliases {
+    fn tree(&mut self, t: &UseTree, last: Option<String>) {
+        match t {
+            UseTree::Path(p) => self.tree(&p.tree, Some(p.ident.to_string())),
+            UseTree::Rename(r) => self.aliases.push((r.rename.to_string(), r.ident.to_string())),
+            UseTree::Group(g) => {
+                for i in g.items.iter() {
+                    self.tree(i, last.clone());
+                }
+            }
+            _ => {}
+        }
+    }
+}
+impl<'ast> syn::visit::Visit<'ast> for UseAliases {
+    fn visit_item_use(&mut self, u: &'ast ItemUse) {
+        self.tree(&u.tree, None);
+    }
+}
+
 fn lower_fn_parts(sig: &mut Signature, block: &mut Block, errors: &mut Vec<String>, what: &str) -> (TokenStream, Stats) {
     sig.constness = None;
+    // D1: `use a::B as C;` items inside bodies are dropped; their aliases are renamed back (C -> B)
+    let mut ua = UseAliases { aliases: Vec::new() };
+    {
+        use syn::visit::Visit;
+        ua.visit_block(block);
+    }
     // L6: `mut self` by value -> `self` + `let mut this__ = self;`
     let mut mut_self = false;
     if let Some(FnArg::Receiver(r)) = sig.inputs.first_mut() {
@@ -930,10 +966,13 @@ fn lower_fn_parts(sig: &mut Signature, block: &mut Block, errors: &mut Vec<Strin
             t => quote! { -> (ret: #t) },
         },
     };
-    let ts = quote! {
+    let mut ts = quote! {
         #[verifier::loop_isolation(false)]
         pub #unsafety fn #name #ig (#inputs) #ret #wc #spec { #bs; #(#stmts)* }
     };
+    if !ua.aliases.is_empty() {
+        ts = rename_idents(ts, &ua.aliases);
+    }
     (ts, stats)
 }
 
@@ -1201,6 +1240,15 @@ fn main() {
                 for (k, im) in impls.iter().enumerate() {
                     let mut fns_ts = Vec::new();
                     for it in &im.items {
+                        if let ImplItem::Const(c) = it {
+                            // associated constants are emitted as they are
+                            let name = c.ident.to_string();
+                            if methods.contains(&name) {
+                                found.insert(name.clone());
+                                let (cn, ct, ce) = (&c.ident, &c.ty, &c.expr);
+                                fns_ts.push((format!("const_{}", name), quote! { pub const #cn: #ct = #ce; }));
+                            }
+                        }
                         if let ImplItem::Fn(m) = it {
                             let name = m.sig.ident.to_string();
                             if methods.contains(&name) {
@@ -1259,6 +1307,9 @@ fn main() {
                 let mut ts = it.to_token_stream();
                 if idx.copy_types.contains(&path) {
                     ts = quote! { #[derive(Clone, Copy)] #ts };
+                }
+                if idx.eq_types.contains(&path) {
+                    ts = quote! { #[derive(PartialEq, Eq)] #ts };
                 }
                 let mut fl = Flatten { known: &known, path_renames: Vec::new() };
                 ts = flatten_tokens(ts, &mut fl);
